@@ -81,6 +81,10 @@ def cases(rng, tier):
         for wrong in ("client", "claim", "redirect", "noredirect"):
             out.append(il_case(2, (0, 0, 1, 1), oidc, jwt, wrong=wrong))
             out.append(il_case(2, (0, 1, 0, 1), oidc, jwt, wrong=wrong))
+    # PKCE add-on in front of the token endpoint: the used code is presented again with the right / a wrong / no verifier
+    for oidc, jwt in combos:
+        for rep in ("right", "wrong", "none"):
+            out.append({"t": "pkce", "oidc": oidc, "jwt": jwt, "replay": rep})
     n = {"quick": 30, "thorough": 600, "search": 400}[tier]
     W = dict(authorize=14, redeem=22, parse=14, process=14, refresh=4, userinfo=3, introspect=3, revokeEp=2, revokeTok=3,
              revokeGrant=2, revokeClient=1, revokeUser=0.5, remove=1, tick=8)
@@ -99,7 +103,32 @@ def _ops_for(c):
     return ops
 
 
+def _pkce_impl(c):
+    """authorize with a code_challenge, redeem with the verifier, present the used code again; then ask introspection about the first access token"""
+    V = "v" * 50
+    R = prov.Runner(c["oidc"], c["jwt"], pkce=True)
+    ops, steps = [], []
+
+    def do(o):
+        r = R.op(o)
+        ops.append(o)
+        steps.append({"out": prov.canon_outcome(r), "raw": r, "proj": R.projection(), "now": prov.clock.CLOCK.t - prov.T0})
+        return r
+    R.auth_extra = {"code_challenge": V, "code_challenge_method": "plain"}
+    do(["authorize", "diana", "client_1", ["openid", "offline_access", "email"], RED])
+    R.auth_extra = {}
+    R.token_extra = {"code_verifier": V}
+    do(["tokenParse", "client_1", 1, RED]); do(["tokenProcess", 0])
+    R.token_extra = {"right": {"code_verifier": V}, "wrong": {"code_verifier": "w" * 50}, "none": {}}[c["replay"]]
+    do(["tokenParse", "client_1", 1, RED])
+    R.token_extra = {}
+    do(["introspect", "client_1", 2])
+    return {"ops": ops, "steps": steps}
+
+
 def impl(c):
+    if c["t"] == "pkce":
+        return _pkce_impl(c)
     ops = _ops_for(c)
     R = prov.Runner(c["oidc"], c["jwt"], **c.get("runner", {}))
     steps = []
